@@ -426,6 +426,9 @@ def suites_for(pid, rng, tier):
         S.append(("costream", "std", "co", gen.gen_co(rng, 2 * k, "k", terms=terms)))
         # Vec::into_co_stream() as the source: its trace must equal the trace of the same pipeline over a stream that has every item ready
         S.append(("costream-vec-source(vs stream source)", "std", "cov", gen.gen_co(rng, ks, "v", terms=terms, allready=True, panic=0.0)))
+        # sources of 30 .. 90 items, over a stream and over a Vec
+        S.append(("costream-large", "std", "co", gen.gen_co(rng, max(k // 10, 200), "kl", terms=terms, large=True, panic=0.002, drop=0.005)))
+        S.append(("costream-vec-source-large(vs stream source)", "std", "cov", gen.gen_co(rng, max(k // 10, 200), "vl", terms=terms, allready=True, panic=0.0, large=True, drop=0.005)))
         return "all", S
     raise SystemExit(f"no suite for {pid}")
 
